@@ -26,8 +26,6 @@ def classify(tags, mode, st):
         return "X86-noparam-table" if st[1] in NOPARAM_KNOWN[str(mode)] else None
     if mem:
         b, i, s, d = mem["base"], mem["index"], mem["scale"], mem["disp"]
-        if tags.get("asize") == 16 and mode == 32 and (b or i):
-            return "X86-16bit-addressing-in-bits32"
         if not mem["dt"] and tags.get("asize") == 16 and mode == 32 and w == 32 and not (b or i):
             return None
     if imm is not None and st[0] == "mn" and st[1] in ("ADD", "OR", "ADC", "SBB", "AND", "SUB", "XOR", "CMP") and w in (16, 32) \
